@@ -29,9 +29,9 @@ type pedBackend struct {
 
 func newPedBackend(suite vssSuite, q *big.Int) *pedBackend { return &pedBackend{suite: suite, q: q} }
 
-func (b *pedBackend) variant() string { return "p" }
-func (b *pedBackend) hlog() *big.Int  { return big.NewInt(0) }
-func (b *pedBackend) secret() *big.Int { return b.sec }
+func (b *pedBackend) variant() string   { return "p" }
+func (b *pedBackend) hlog() *big.Int    { return big.NewInt(0) }
+func (b *pedBackend) secret() *big.Int  { return b.sec }
 func (b *pedBackend) dealerSID() []byte { return b.dealer.SessionID() }
 
 func (b *pedBackend) setup(n, t int) error {
